@@ -397,6 +397,115 @@ def _witness(g, IN, OUT, ret, fact, co):
     return [f"L{x.line}: {x.text()[:90]}" for x in reversed(path) if x.stmt is not None][-14:]
 
 
+def loop_nodes(g, head):
+    """Ids of the CFG nodes inside the loop of `head` (reachable from the true edge without leaving through false/break)."""
+    body = set()
+    work = [s for s, lab in head.succ if lab == "true"]
+    while work:
+        n = work.pop()
+        if n.id in body or n is head:
+            continue
+        body.add(n.id)
+        for s, lab in n.succ:
+            if n.kind == "break":
+                continue
+            work.append(s)
+    # nodes reachable only after leaving the loop must be excluded: everything reachable from the false edge without
+    # passing the head again is outside -- compute and subtract
+    outside = set()
+    work = [s for s, lab in head.succ if lab == "false"] + [s for n in g.nodes if n.kind == "break" and n.id in body for s, _ in n.succ]
+    while work:
+        n = work.pop()
+        if n.id in outside or n is head:
+            continue
+        outside.add(n.id)
+        work += [s for s, _ in n.succ]
+    return body - outside
+
+
+def rule_f(ctx):
+    R = "C04.f"
+    ctx.rule(R, "the iterate restored after a failure is the last valid one: every snapshot restored in the exception handler of the "
+             "iteration loop is (re)taken inside the loop before the guarded step -- all its reaching definitions lie in the loop body; a "
+             "snapshot taken once before the loop would hand back the initial iterate after a failure at any later iteration")
+    m = ctx.model
+    for cname in SOLVERS:
+        f = m.func(WAS, f"{cname}._solve")
+        g = C.CFG(f.node)
+        it = find_iteration(g)
+        ctx.need(it is not None, f"{f.qname}: iteration loop not found")
+        head, tr, hnodes, hbreaks, cbreaks = it
+        inside = loop_nodes(g, head)
+        RD, _ = C.reaching_definitions(g, f.params)
+        restores = []
+        for h in tr.handlers:
+            for s in ast.walk(h):
+                if isinstance(s, ast.Assign) and isinstance(s.targets[0], ast.Tuple) and isinstance(s.value, ast.Name):
+                    restores.append(s)
+        ctx.instance(R)
+        if not restores:
+            ctx.ob(R, f.qname, "the handler restores a snapshot of the last valid iterate", False,
+                   "no `S, D = snapshot` in the exception handler: after a failing step the partially updated iterate is returned", tr)
+            continue
+        for s in restores:
+            n = g.node_of(s)
+            defs = [i for nme, i in RD.get(n.id, ()) if nme == s.value.id]
+            outside = [g.nodes[i] for i in defs if i not in inside]
+            ctx.ob(R, f.qname, f"snapshot `{s.value.id}` restored by the handler is taken anew in every iteration", bool(defs) and not outside,
+                   f"definition(s) outside the loop reach the restore: {[f'L{x.line}: {x.text()[:60]}' for x in outside]}: a failure at iteration k > 0 returns an older iterate than the last valid one", s)
+    ctx.floor(R, 2)
+
+
+def rule_g(ctx):
+    R = "C04.g"
+    ctx.rule(R, "a cached factorisation is only reused for the matrix it was set up for: for every linear_solve call that may pass "
+             "reuse_solver=True, each definition of its matrix argument inside the iteration loop is followed on every path to that call "
+             "by a linear_solve of the same matrix with reuse_solver False; the reuse expression is False or `<loop index> > 0`")
+    m = ctx.model
+    for cname in SOLVERS:
+        f = m.func(WAS, f"{cname}._solve")
+        g = C.CFG(f.node)
+        it = find_iteration(g)
+        ctx.need(it is not None, f"{f.qname}: iteration loop not found")
+        head = it[0]
+        loopvar = norm(head.stmt.target)
+        inside = loop_nodes(g, head)
+        RD, _ = C.reaching_definitions(g, f.params)
+        calls = []
+        for n in g.nodes:
+            if n.kind == "stmt":
+                for c in ast.walk(n.stmt):
+                    if isinstance(c, ast.Call) and norm(c.func) == "self.linear_solve" and c.args:
+                        r = next((k.value for k in c.keywords if k.arg == "reuse_solver"), c.args[3] if len(c.args) > 3 else None)
+                        fresh = r is None or (isinstance(r, ast.Constant) and r.value is False)
+                        calls.append((n, c, fresh, r))
+        ctx.instance(R)
+        for n, c, fresh, r in calls:
+            if fresh:
+                continue
+            ctx.ob(R, f.qname, f"reuse expression `{norm(r)}` is False on the first iteration", norm(r) in (f"{loopvar} > 0", f"{loopvar} >= 1", f"{loopvar} != 0", "False"), "", c)
+        # dataflow: for each in-loop definition of a matrix name, is a fresh solve of that name passed before any reusing solve?
+        for n, c, fresh, r in calls:
+            if fresh or not isinstance(c.args[0], ast.Name):
+                continue
+            M = c.args[0].id
+            for nme, i in RD.get(n.id, ()):
+                if nme != M or i not in inside:
+                    continue
+                d = g.nodes[i]
+                fresh_nodes = {x.id for x, cc, fr, _ in calls if fr and isinstance(cc.args[0], ast.Name) and cc.args[0].id == M}
+                # path from the definition to the reusing call avoiding fresh solves (and avoiding re-definitions of M)
+                redefs = {x.id for x in g.nodes if x.id != d.id and any(nm == M and k == "def" for nm, k in C.defs_of(x))}
+                if d.id in fresh_nodes:
+                    continue
+                avoid = [g.nodes[j] for j in (fresh_nodes | redefs) if j != n.id]
+                pth = g.path(d, n, avoid=avoid)
+                ctx.ob(R, f.qname, f"matrix `{M}` re-assembled at `{d.text()[:50]}` gets a fresh solver before `linear_solve({M}, reuse_solver={norm(r)})`", pth is None,
+                       "a path from the re-assembly to the reusing solve passes no linear_solve with reuse_solver=False: the stale factorisation of the previous matrix is applied to the new system",
+                       c, path=[f"L{x.line}: {x.text()[:80]}" for x in (pth or [])][:12])
+    ctx.floor(R, 2)
+
+
 # ---- C04.c ----------------------------------------------------------------------------------
 
 def rule_c(ctx):
@@ -519,8 +628,10 @@ def enum_members(m, name):
 
 def dispatch_chain(fnode, attr, enum):
     """Top-level if/elif chain on self.<attr>: (members handled, has terminating raise, branch bodies)."""
-    for st in fnode.body:
-        if isinstance(st, ast.If) and f"self.{attr}" in norm(st.test):
+    cands = [n for n in ast.walk(fnode) if isinstance(n, ast.If) and f"self.{attr}" in norm(n.test)]
+    heads = [n for n in cands if not (isinstance(getattr(n, "_parent", None), ast.If) and n in n._parent.orelse and n._parent in cands)]
+    for st in heads[:1]:
+        if True:
             handled, bodies = [], []
             cur = st
             while True:
@@ -565,6 +676,8 @@ def rule_e(ctx):
 def run(ctx):
     rule_a(ctx)
     rule_b(ctx)
+    rule_f(ctx)
+    rule_g(ctx)
     rule_c(ctx)
     rule_d(ctx)
     rule_e(ctx)
